@@ -25,7 +25,8 @@ Proof. intros. split; intros. apply fixed_dates; assumption. apply fixed_diffusi
 (* jump times: for consecutive product intervals (tm, dt, offsets) with offsets strictly increasing inside (0, dt),
    any number of intervals and of jumps (also none): times start at 0, end at the maturity and are strictly
    increasing; the jump part is 0 at time 0, the running sum of all increments at each jump time, and the last
-   value is repeated at the maturity; the Markov-chain simulators agree when there is ONE product interval *)
+   value is repeated at the maturity; the (repaired) Markov-chain simulators, which build the path interval by interval and
+   carry the end value over the product dates, give the same running sums for ANY number of product intervals *)
 Theorem C15_jump_times : forall ivs incs, valid_ivs 0 ivs -> 0 < end_of 0 ivs ->
   (let T := end_of 0 ivs in let times := assemble_times T (times_of_ivs ivs) in
    hd 1 times = 0 /\ last times 0 = T /\ strictly_increasing times)
@@ -34,19 +35,14 @@ Theorem C15_jump_times : forall ivs incs, valid_ivs 0 ivs -> 0 < end_of 0 ivs ->
       /\ (forall k, (k < length vals)%nat -> nth (S k) path 0 == qsum (firstn (S k) (concat incs)))
       /\ last path 0 = last vals 0
       /\ length path = S (S (length (concat incs))))
-  /\ (forall inc, mc_jump_values [inc] = levy_jump_values [inc])
+  /\ (forall chain_incs, Forall2 Qeq (mc_jump_values chain_incs) (levy_jump_values chain_incs))
   (* times and values belong together only when every interval has as many increments as offsets: then equally long *)
   /\ (Forall2 (fun iv inc => length (iv_offs iv) = length inc) ivs incs ->
       length (assemble_times (end_of 0 ivs) (times_of_ivs ivs)) = length (assemble_values (levy_jump_values incs))).
 Proof.
-  intros. split; [|split; [|split]]. apply jump_times_path; assumption. apply jump_values. apply chain_single_interval.
+  intros. split; [|split; [|split]]. apply jump_times_path; assumption. apply jump_values. apply chain_running_sum.
   intro. apply jump_path_lengths; assumption.
 Qed.
-
-(* F-C15-4: with two product intervals the Markov-chain jump-time simulators restart at the origin *)
-Theorem C15_chain_restart_refuted : exists incs, mc_jump_values incs <> levy_jump_values incs
-  /\ Qeq_bool (last (mc_jump_values incs) 0) (qsum (concat incs)) = false.
-Proof. exact chain_restart_refuted. Qed.
 
 (* build_finer_grid (any value type V: scalars, d-vectors, (fine, coarse) pairs), any list of (gap, value), 0 < eps:
    if every gap is at most (N+1) eps the loop ends within N passes (more fuel changes nothing) and then
@@ -69,17 +65,19 @@ Proof.
   - apply (Refines_total zero l r HR).
 Qed.
 
-(* what the code RETURNS: _build_finer_grid's arrays are gaps/values of `refine` (times = cumsum of the gaps); for 0 < eps below the
-   horizon handed to the factory and enough passes, the path of SimulationMaximumStep is 0, the refined times, the maturity, with
-   EVERY step except the last one <= eps, and the returned (gap, value) arrays refine the input in the sense of Refines *)
-Theorem C15_cap_inner_steps : forall N eps T times vals, 0 < eps -> eps < T -> times <> [] ->
-  gaps_le (inject_Z (Z.of_nat (S N)) * eps) (combine (gaps times) vals) ->
-  let tv := build_finer_grid 0 N eps T times vals in
-  fst (capped_path N eps T times vals) = assemble_times T (fst tv)
-  /\ snd (capped_path N eps T times vals) = assemble_values (snd tv)
-  /\ Forall (fun g => g <= eps) (gaps (fst tv))
-  /\ exists r, Refines 0 (combine (gaps times) vals) r /\ Forall2 Qeq (gaps (fst tv)) (map fst r) /\ snd tv = map snd r.
-Proof. exact capped_path_inner_steps. Qed.
+(* what the code RETURNS (F-C15-1 repaired: refine_up_to_maturity): the path of the max-step simulators is 0, the refined times,
+   the maturity; for 0 < eps < T and enough passes EVERY step is <= eps - the step to the maturity and the steps of a path without
+   jumps included - and the returned gaps/values refine (Refines) the jump times with the maturity appended *)
+Theorem C15_cap_whole_path : forall N eps T times vals, 0 < eps -> eps < T -> length vals = length times ->
+  let l := combine (gaps (times ++ [T])) (vals ++ [last vals 0]) in
+  gaps_le (inject_Z (Z.of_nat (S N)) * eps) l ->
+  let p := capped_path N eps T times vals in
+  hd 1 (fst p) = 0 /\ last (fst p) 0 = T
+  /\ Forall (fun g => g <= eps) (gaps (tl (fst p)))
+  /\ exists r, Refines 0 l r
+        /\ Forall2 Qeq (gaps (tl (fst p))) (map fst r)
+        /\ snd p = assemble_values (removelast (map snd r)).
+Proof. exact capped_path_whole. Qed.
 
 Theorem C15_finer_grid_returns : forall (V : Type) (zero : V) fuel eps times (vals : list V),
   let r := refine zero fuel eps (combine (gaps times) vals) in
@@ -95,30 +93,20 @@ Theorem C15_finer_grid_aligned : forall eps fuel (l : list (Q * (Q * Q))),
   /\ map (fun x => (fst x, snd (snd x))) (refine (0, 0) fuel eps l) = refine 0 fuel eps (map (fun x => (fst x, snd (snd x))) l).
 Proof. intros. split. apply (refine_proj (@fst Q Q)). apply (refine_proj (@snd Q Q)). Qed.
 
-(* F-C15-1: the cap does not reach the step to the maturity, nor a path without jumps *)
-Theorem C15_cap_whole_path_refuted :
-  (exists eps T, 0 < eps /\ eps < T /\ fst (capped_path 64 eps T [] []) = [0; T])
-  /\ (exists eps T times vals, 0 < eps /\ eps < T /\
-        let p := fst (capped_path 64 eps T times vals) in
-        Qle_bool (T - nth (length p - 2) p 0) eps = false).
-Proof. exact cap_whole_path_refuted. Qed.
-
 (* non-vacuity *)
 Example C15_nonvacuous :
   fixed_jump_path [[1; 2]; []; [4]] = [0; 0 + 3; 0 + 3 + 0; 0 + 3 + 0 + 4]
   /\ map Qred (fst (finer_grid 0 8 (1#2) [1#4; 3#2] [1; 3])) = [1#4; 3#4; 5#4; 3#2]
   /\ snd (finer_grid 0 8 (1#2) [1#4; 3#2] [1; 3]) = [1; 1; 1; 3]
-  /\ jump_path false (Some (1#2)) 8 2 [0; 1] [[1#4; 1#2]; [1#4]] [[1; 2]; [4]]
-     = ([0; 0 + (1#4); 0 + (1#4) + ((0 + (1#2)) - (0 + (1#4))); 0 + (1#4) + ((0 + (1#2)) - (0 + (1#4))) + (1#2);
-         0 + (1#4) + ((0 + (1#2)) - (0 + (1#4))) + (1#2) + ((1 + (1#4)) - (0 + (1#2)) - (1#2)); 2],
-        [0; 0 + 1; 0 + 1 + 2; 0 + 1 + 2; 0 + 1 + 2 + 4; 0 + 1 + 2 + 4]).
+  /\ (let p := jump_path true (Some (1#2)) 8 2 [0; 1] [[1#4; 1#2]; [1#4]] [[1; 2]; [4]] in (map Qred (fst p), map Qred (snd p)))
+     = ([0; 1#4; 1#2; 1; 5#4; 7#4; 2], [0; 1; 3; 3; 7; 7; 7])
+  /\ (let p := jump_path false (Some (1#2)) 8 1 [0] [[]] [[]] in (map Qred (fst p), map Qred (snd p))) = ([0; 1#2; 1], [0; 0; 0]).
 Proof. vm_compute. repeat split. Qed.
 
 Print Assumptions C15_fixed_dates.
 Print Assumptions C15_jump_times.
-Print Assumptions C15_chain_restart_refuted.
 Print Assumptions C15_finer_grid.
-Print Assumptions C15_cap_inner_steps.
+Print Assumptions C15_cap_whole_path.
 Print Assumptions C15_finer_grid_returns.
 Print Assumptions C15_finer_grid_aligned.
-Print Assumptions C15_cap_whole_path_refuted.
+Print Assumptions C15_nonvacuous.
